@@ -477,3 +477,29 @@ def signatures_to_file(cases, path):
         evs.append(ev)
     _dump(evs, path)
     return len(evs)
+
+
+def bigtables_to_file(cases, path):
+    """hand-built data whose tables cross the one-byte (and, in thorough, two-byte) operand boundary:
+    n distinct names / constants / locals each used once in order, a backward and a forward jump across them"""
+    from code_data import Args, CodeData, Constant, Function, Instruction, Jump, Name, Varname
+
+    evs = []
+    for c in cases:
+        n, kind = c["n"], c["kind"]
+        if kind == "names":
+            loads = [Instruction("LOAD_NAME", Name("n%d" % i), line_number=1) for i in range(n)]
+        elif kind == "consts":
+            loads = [Instruction("LOAD_CONST", Constant(i * 3 + 1000), line_number=1) for i in range(n)]
+        else:
+            loads = [Instruction("LOAD_FAST", Varname("v%d" % i), line_number=1) for i in range(n)]
+        pops = [Instruction("POP_TOP", line_number=2) for _ in range(n)]
+        b0 = (Instruction("JUMP_FORWARD", Jump(2, True), line_number=1),)
+        b1 = tuple(loads) + tuple(pops) + (Instruction("JUMP_ABSOLUTE", Jump(1), line_number=2),)
+        b2 = (Instruction("LOAD_CONST", Constant(None), line_number=3), Instruction("RETURN_VALUE", line_number=3))
+        cd = CodeData(blocks=(b0, b1, b2), filename="<big>", first_line_number=1, name="big", stacksize=n + 1,
+                      type=Function(Args()) if kind == "locals" else None)
+        ev, _ = encode_event(cd, c["id"], "hand")
+        evs.append(ev)
+    _dump(evs, path)
+    return len(evs)
